@@ -235,6 +235,10 @@ func (e *Engine) runProperty(prop, tier string, budget int) *checkOutcome {
 	out := &checkOutcome{}
 	safety := prop == "C03"
 	work := e.functionsFor(prop)
+	tagged := map[string]bool{}
+	for _, n := range work {
+		tagged[n] = true
+	}
 	seen := map[string]bool{}
 	for len(work) > 0 {
 		name := work[0]
@@ -252,7 +256,10 @@ func (e *Engine) runProperty(prop, tier string, budget int) *checkOutcome {
 		}
 		out.obls = append(out.obls, res.Obls...)
 		for _, u := range res.Used {
-			if !seen[u] {
+			// callees join the run when they carry clauses of this property; clauses without
+			// a tag (iterator bookkeeping) are discharged by the runs of the properties that
+			// tag the function and by the C03 sweep, which activates every clause
+			if !seen[u] && tagged[u] {
 				work = append(work, u)
 			}
 		}
